@@ -14,6 +14,8 @@ for d in sorted(glob.glob(root + '/seeded/C*-*'), key=key):
     wb = (m.get('what_it_breaks') or '').replace('|', '/').replace('\n', ' ')
     cls = vr.get('failure_class') or ''
     det = 'yes' if vr.get('detected') else 'NO'
+    if vr.get('detected') and vr.get('detected_by_quick') is False:
+        det = 'no - thorough only'
     if vr.get('history'): det += ' (after strengthening)'
     rows.append((os.path.basename(d), title, wb, cls, det, vr.get('seconds')))
 props = {json.loads(l)['id']: json.loads(l)['title'] for l in open(root + '/properties.jsonl')}
@@ -27,4 +29,4 @@ p = root + '/DESIGN.md'
 s = open(p).read()
 s2 = re.sub(r'<!-- SEEDED-TABLE-BEGIN -->.*?<!-- SEEDED-TABLE-END -->', '<!-- SEEDED-TABLE-BEGIN -->\n' + table + '\n<!-- SEEDED-TABLE-END -->', s, flags=re.S)
 open(p, 'w').write(s2)
-print(len(rows), 'rows;', sum(1 for r in rows if r[4].startswith('NO')), 'undetected')
+print(len(rows), 'rows;', sum(1 for r in rows if r[4].startswith('NO')), 'undetected;', sum(1 for r in rows if r[4].startswith('no - thorough')), 'thorough only')
